@@ -181,6 +181,60 @@ fn run<C: CI>(ctx: &mut Ctx) {
             cell!(ctx, "{name}/exact-fit/{}/pad{}", len_class(a.bits, n), if pad == 0 { "0" } else if (pad * a.bits as usize) % 64 == 0 { "word" } else { "unaligned" });
         }
     });
+    ctx.group(&format!("{name}/huge"), |ctx| {
+        // 2^10 .. 2^16 symbols and 65 .. 2049 machine words: page-wise decoders and block-wise adaptors; besides the
+        // external iteration of `one`, the internal-iteration entry points (fold / for_each / count / last / collect)
+        for (k, n) in huge_lengths(ctx, a.bits).into_iter().enumerate() {
+            let codes = structured_codes(&mut ctx.rng, a, n, k);
+            let pad = [0, 1 % noff, (k * 5 + 2) % noff][k % 3];
+            let p = Padded::<C>::new(&mut ctx.rng, pad, &codes, 2);
+            let s = p.slice();
+            ctx.eval();
+            let what = format!("{name} len {n} pad {pad} (huge)");
+            // external iteration, chunks of block-like widths (every chunk compared: linear), windows spot-checked
+            let (v, t, f) = drain(s.iter(), n + 5);
+            term::<C>(ctx, "iter", &what, n, v.len(), t, f);
+            check!(ctx, v.iter().map(|x| x.to_bits()).eq(codes.iter().copied()), format!("iter|{name}|content"), "{what}: iter content wrong");
+            let (v, t, f) = drain(s.rev_iter(), n + 5);
+            term::<C>(ctx, "rev_iter", &what, n, v.len(), t, f);
+            check!(ctx, v.iter().map(|x| x.to_bits()).eq(codes.iter().rev().copied()), format!("rev_iter|{name}|content"), "{what}: rev_iter content wrong");
+            for w in [1usize, 3, 64, 100, 4096, 4097, n / 2 + 1, n] {
+                if w == 0 || w > n {
+                    continue;
+                }
+                let (v, t, f) = drain(s.chunks(w), n / w + 5);
+                term::<C>(ctx, "chunks", &format!("{what} w={w}"), n / w, v.len(), t, f);
+                let bad = v.iter().enumerate().position(|(i, ch)| ch.len() != w || (i + 1) * w > n || codes_of::<C>(ch) != codes[i * w..(i + 1) * w]);
+                check!(ctx, bad.is_none(), format!("chunks|{name}|content"), "{what} w={w}: chunk {:?} differs from the model", bad);
+                let mut it = s.windows(w);
+                let total = n - w + 1;
+                for j in 0..12usize {
+                    let i = [0, 1, total - 1, total / 2, 4095 % total, 4096 % total, 8191 % total, (j * 7919) % total][j % 8] % total;
+                    let got = s.windows(w).nth(i);
+                    check!(ctx, got.map(|g| g.len() == w && g.nth(0).to_bits() == codes[i] && g.nth(w - 1).to_bits() == codes[i + w - 1]) == Some(true), format!("windows|{name}|content"), "{what} w={w}: window {i} wrong");
+                }
+                check!(ctx, it.by_ref().count() == total && it.next().is_none(), format!("windows|{name}|count"), "{what} w={w}: windows count is not {total}");
+            }
+            let r = observe(|| {
+                let folded: Vec<u8> = s.iter().fold(Vec::with_capacity(n), |mut v, x| { v.push(x.to_bits()); v });
+                let mut each: Vec<u8> = Vec::with_capacity(n);
+                s.iter().for_each(|x| each.push(x.to_bits()));
+                let rfold: Vec<u8> = s.rev_iter().fold(Vec::with_capacity(n), |mut v, x| { v.push(x.to_bits()); v });
+                (folded, each, rfold, s.iter().count(), s.iter().last().map(|x| x.to_bits()), s.rev_iter().count(), s.iter().map(|x| x.to_char()).collect::<String>(), s.iter().skip(n / 2).count(), s.iter().chain(s.iter()).count())
+            });
+            match r {
+                Ok((folded, each, rfold, cnt, last, rcnt, text, half, chained)) => {
+                    check!(ctx, folded == codes && each == codes, format!("iter.fold|{name}|content"), "{what}: fold / for_each over iter() give {} / {} items, first difference at {:?}", folded.len(), each.len(), folded.iter().zip(&codes).position(|(g, w)| g != w));
+                    check!(ctx, rfold.iter().rev().eq(codes.iter()), format!("rev_iter.fold|{name}|content"), "{what}: fold over rev_iter() gives {} items", rfold.len());
+                    check!(ctx, cnt == n && rcnt == n && half == n - n / 2 && chained == 2 * n, format!("iter.count|{name}|count"), "{what}: count() = {cnt} / rev {rcnt} / after skip {half} / chained {chained}");
+                    check!(ctx, last == codes.last().copied(), format!("iter.last|{name}|content"), "{what}: last() = {:?}", last);
+                    check!(ctx, text == a.text(&codes), format!("iter.collect|{name}|content"), "{what}: collecting the characters gives a different text (len {})", text.len());
+                }
+                Err(pm) => check!(ctx, false, format!("iter.fold|{name}|panics"), "{what}: panicked {pm}"),
+            }
+            cell!(ctx, "{name}/huge/2^{}", usize::BITS - n.leading_zeros());
+        }
+    });
     ctx.group(&format!("{name}/random"), |ctx| {
         for r in 0..ctx.n(400, 10_000, 3) {
             if ctx.over() {
